@@ -40,8 +40,20 @@ META = dict(
                'photutils.psf.photometry:IterativePSFPhotometry.__call__',
                'photutils.datasets.images:make_model_image',
                'photutils.utils.errors:calc_total_error',
-               'photutils.isophote.ellipse:Ellipse.fit_image'],
-    bounds=('28 entry points x container in {ndarray, MaskedArray, Quantity, '
+               'photutils.isophote.ellipse:Ellipse.fit_image',
+               'photutils.background.core:MMMBackground.calc_background',
+               'photutils.background.local_background:LocalBackground.__call__',
+               'photutils.segmentation.detect:detect_threshold',
+               'photutils.morphology.core:data_properties',
+               'photutils.aperture.mask:ApertureMask.get_values',
+               'photutils.aperture.core:PixelAperture.do_photometry',
+               'photutils.psf.utils:fit_fwhm',
+               'photutils.segmentation.core:SegmentationImage.make_source_mask',
+               'photutils.utils.cutouts:CutoutImage.__init__',
+               'photutils.psf.image_models:ImagePSF.evaluate',
+               'photutils.psf.matching.fourier:create_matching_kernel',
+               'photutils.psf.epsf:EPSFBuilder.__call__'],
+    bounds=('32 entry points x container in {ndarray, MaskedArray, Quantity, '
             'view of a larger array} x {NaN present} x {negative pixels '
             'inside sources} x mask in {none, bool, int8} x error given; '
             'every feasible combination accepted by the entry point is run '
@@ -375,6 +387,172 @@ def _entries():
         np.asarray(getattr(d, 'value', d))[3, 4] += 1.0
     E['__selftest__'] = (('ndarray', 'view', 'masked', 'quantity'),
                          e_selftest)
+
+    # ---- second batch ---------------------------------------------------
+    def e_estimators(i):
+        import photutils.background as pb
+        d = i['data']
+        sc = SigmaClip(3.0)
+        for name in ('MeanBackground', 'MedianBackground',
+                     'ModeEstimatorBackground', 'MMMBackground',
+                     'SExtractorBackground', 'BiweightLocationBackground',
+                     'StdBackgroundRMS', 'MADStdBackgroundRMS',
+                     'BiweightScaleBackgroundRMS'):
+            est = getattr(pb, name)(sigma_clip=sc)
+            est(d)
+            est.calc_background(d, axis=1) if hasattr(
+                est, 'calc_background') else est.calc_background_rms(
+                    d, axis=1)
+    E['background-estimators'] = (ALL, e_estimators)
+
+    def e_localbkg(i):
+        xs = np.array([10.0, 30.0, 13.0, 2.0])
+        ys = np.array([9.0, 12.0, 29.0, 1.0])
+        i['extra'] = [xs, ys]
+        LocalBackground(4, 8)(i['data'], xs, ys, mask=None if i[
+            'mask'] is None else i['mask'].astype(bool))
+    E['LocalBackground'] = (('ndarray', 'view', 'quantity'), e_localbkg)
+
+    def e_threshold(i):
+        d = i['data']
+        bk = np.full(val(d).shape, 0.3)
+        er = np.full(val(d).shape, 0.4) + 0.01 * np.arange(
+            val(d).shape[1])[None, :]
+        if hasattr(d, 'unit'):
+            bk, er = bk * d.unit, er * d.unit
+        i['extra'] = [bk, er]
+        detect_threshold(d, 2.5, background=bk, error=er, mask=i['mask'])
+        detect_threshold(d, 2.5, mask=i['mask'], sigma_clip=SigmaClip(2.5))
+    E['detect_threshold'] = (('ndarray', 'view', 'quantity'), e_threshold)
+
+    def e_dataprops(i):
+        from photutils.morphology import data_properties, gini
+        m = None if i['mask'] is None else cut(i['mask']).astype(bool)
+        bk = np.full(cut(val(i['data'])).shape, 0.2)
+        if hasattr(i['data'], 'unit'):
+            bk = bk * i['data'].unit
+        i['extra'] = [bk]
+        pr = data_properties(cut(i['data']), mask=m, background=bk)
+        pr.xcentroid, pr.semimajor_sigma, pr.orientation, pr.segment_flux
+        gini(cut(val(i['data'])), mask=m)
+    E['data_properties+gini'] = (('ndarray', 'view', 'quantity'),
+                                 e_dataprops)
+
+    def e_apermask(i):
+        from photutils.aperture import EllipticalAperture
+        d = i['data']
+        for ap in (CircularAperture((10.3, 9.2), 3.0),
+                   EllipticalAperture((42.5, 12.0), 4.0, 2.0, theta=0.4),
+                   CircularAnnulus((1.0, 38.5), 2.0, 4.5)):
+            for method in ('exact', 'center', 'subpixel'):
+                m = ap.to_mask(method=method, subpixels=3)
+                i.setdefault('extra', []).append(m.data)
+                m.cutout(d, fill_value=0)
+                m.multiply(d)
+                m.get_values(d, mask=None if i['mask'] is None else i[
+                    'mask'].astype(bool))
+                m.to_image(val(d).shape)
+            ap.do_photometry(d, error=i['error'], mask=None if i[
+                'mask'] is None else i['mask'].astype(bool))
+            ap.area_overlap(d, mask=None if i['mask'] is None else i[
+                'mask'].astype(bool))
+    E['ApertureMask+do_photometry'] = (('ndarray', 'view', 'quantity'),
+                                       e_apermask)
+
+    def e_fitfwhm(i):
+        from photutils.psf import fit_2dgaussian, fit_fwhm
+        pos = np.array([(10.0, 9.0), (30.0, 12.0), (13.0, 29.0)])
+        i['extra'] = [pos]
+        m = None if i['mask'] is None else i['mask'].astype(bool)
+        fit_fwhm(i['data'], xypos=pos, fit_shape=7, mask=m, error=i['error'])
+        fit_2dgaussian(i['data'], xypos=pos, fit_shape=7, mask=m,
+                       error=i['error'])
+    E['fit_fwhm+fit_2dgaussian'] = (('ndarray', 'view'), e_fitfwhm)
+
+    def e_segm(i):
+        from photutils.segmentation import SegmentationImage
+        lab = np.zeros((40, 44), np.int32)
+        lab[7:12, 8:13] = 4
+        lab[10:15, 28:33] = 9
+        lab[27:32, 11:16] = 2
+        lab[0:3, 40:44] = 9          # label 9 is not connected
+        lab0 = lab.copy()
+        segm = SegmentationImage(lab)
+        i['extra'] = [lab]
+        for a in ('labels', 'areas', 'slices', 'bbox', 'segments',
+                  'polygons', 'missing_labels', 'is_consecutive', 'cmap',
+                  'data_ma', 'background_area', 'max_label', 'nlabels',
+                  'shape', 'patches'):
+            getattr(segm, a, None)
+        segm.make_source_mask(size=3)
+        segm.make_source_mask(footprint=np.ones((3, 3)))
+        segm.get_area(4), segm.get_index(9), segm.check_labels([2, 4])
+        segm.get_areas([2, 9]), segm.get_indices([2, 9])
+        segm.to_patches()
+        segm.make_cmap(seed=1)
+        segm.copy()
+        if not np.array_equal(lab, lab0):
+            raise AssertionError('label array modified by read access')
+    E['SegmentationImage-reads'] = (('ndarray',), e_segm)
+
+    def e_cutout(i):
+        from photutils.utils import CutoutImage, ShepardIDWInterpolator
+        d = i['data']
+        for pos, mode in (((9, 10), 'trim'), ((0, 43), 'partial'),
+                          ((39, 1), 'partial')):
+            c = CutoutImage(d, pos, (7, 9), mode=mode, fill_value=np.nan)
+            c.data, c.bbox_original, c.slices_cutout
+        rng = np.random.default_rng(5)
+        xy = rng.uniform(0, 40, (30, 2))
+        vals = rng.normal(size=30)
+        pts = rng.uniform(0, 40, (7, 2))
+        i['extra'] = [xy, vals, pts]
+        ShepardIDWInterpolator(xy, vals)(pts, n_neighbors=5)
+    E['CutoutImage+IDW'] = (('ndarray', 'view', 'quantity'), e_cutout)
+
+    def e_imagepsf(i):
+        from photutils.psf import GriddedPSFModel, ImagePSF
+        from astropy.nddata import NDData
+        yy, xx = np.mgrid[-6:7, -6:7]
+        arr = np.exp(-(xx ** 2 + yy ** 2) / 8.0)
+        stack = np.array([arr * k for k in (1.0, 1.1, 0.9, 1.05)])
+        i['extra'] = [arr, stack]
+        m = ImagePSF(arr, flux=3.0, x_0=6.2, y_0=5.9, oversampling=2)
+        m(xx + 6.0, yy + 6.0)
+        nd = NDData(stack, meta=dict(grid_xypos=[(0, 0), (20, 0), (0, 20),
+                                                 (20, 20)], oversampling=2))
+        g = GriddedPSFModel(nd, flux=2.0, x_0=7.3, y_0=12.1)
+        g(xx + 7.0, yy + 12.0)
+        g.copy()(xx + 3.0, yy + 2.0)
+    E['ImagePSF+GriddedPSFModel'] = (('ndarray',), e_imagepsf)
+
+    def e_matching(i):
+        from photutils.psf.matching import (TopHatWindow,
+                                            create_matching_kernel,
+                                            resize_psf)
+        yy, xx = np.mgrid[-12:13, -12:13]
+        p1 = np.exp(-(xx ** 2 + yy ** 2) / (2 * 2.0 ** 2))
+        p2 = np.exp(-(xx ** 2 + yy ** 2) / (2 * 3.0 ** 2))
+        p1 /= p1.sum()
+        p2 /= p2.sum()
+        i['extra'] = [p1, p2]
+        create_matching_kernel(p1, p2, window=TopHatWindow(0.4))
+        resize_psf(p1, 0.1, 0.05)
+    E['psf-matching'] = (('ndarray',), e_matching)
+
+    def e_epsf(i):
+        from astropy.nddata import NDData
+        from astropy.table import Table
+        from photutils.psf import EPSFBuilder, extract_stars
+        d = val(i['data'])
+        d = np.nan_to_num(np.asarray(d, float))
+        nd = NDData(d)
+        tbl = Table(dict(x=[10.0, 30.0, 13.0, 31.0], y=[9.0, 12.0, 29.0,
+                                                        30.0]))
+        i['extra'] = [d, tbl]
+        stars = extract_stars(nd, tbl, size=11)
+        EPSFBuilder(oversampling=2, maxiters=2, progress_bar=False)(stars)
+    E['extract_stars+EPSFBuilder'] = (('ndarray', 'view'), e_epsf)
 
     def e_ellipse(i):
         geo = EllipseGeometry(30.0, 12.0, 4.0, 0.1, 0.3)
